@@ -4,4 +4,5 @@ INVARIANT AssertsOk
 INVARIANT Correct
 INVARIANT ClampedAbove
 INVARIANT NormalAtHit
+INVARIANT StepsAgree
 CHECK_DEADLOCK FALSE
